@@ -77,6 +77,9 @@ UNITS.append(lle.unit(['ll_disconnect'], name='link', replay=dict(src='replay/c0
                       repo_sources=['tests/test_tools/test_radio.cpp', 'tests/test_tools/hexdump.cpp', 'tests/test_tools/buffer_io.cpp', 'tests/test_tools/address_io.cpp',
                                     'bluetoe/link_layer/delta_time.cpp', 'bluetoe/link_layer/channel_map.cpp', 'bluetoe/link_layer/connection_details.cpp', 'bluetoe/utility/address.cpp'])))
 
+# ... and the link state the gate is asked with: handle_encryption_pdus (contract in C28.py) reports 'not encrypted' to the connection data from LL_PAUSE_ENC_REQ on, 'encrypted' only with LL_START_ENC_RSP
+UNITS += [dict(u, enforce=['handle_encryption_pdus']) for u in _load('C28').UNITS if u['name'] == 'encryption_control']
+
 META = dict(
     level='proof',
     explanation="(1) The defining expressions of encryption_default<>::value / ::maybe and characteristic_requires_encryption<>::value "
@@ -89,7 +92,8 @@ META = dict(
                 "conditional assigns frame) and calls no user handler / callback - for every access type, offset, length and content.",
     assumptions=["the gate decides when the attribute is accessed; the response is transmitted later by the link layer: unit link (link_layer<>::disconnect, real body) proves that a "
                  "disconnect requested by the local host does not switch the link's encryption off while queued PDUs and the LL_TERMINATE_IND are still to be sent "
-                 "(force_disconnect, which does, is where the connection ends: C29); LL_PAUSE_ENC_REQ from the central is the central's own decision (C28)",
+                 "(force_disconnect, which does, is where the connection ends: C29); unit encryption_control (C28.py): the link state handed to every access is 'encrypted' only between "
+                 "LL_START_ENC_RSP for a supplied key and the next LL_PAUSE_ENC_REQ / LL_PAUSE_ENC_RSP / reset",
                  "has_option<requires_encryption / no_encryption_required / may_require_encryption, Options...> are type-level results and enter as "
                  "symbolic booleans; that each generate_attribute<> instantiation passes characteristic_requires_encryption<...>::value as "
                  "RequiresEncryption is read off the source (template argument), not proved",
